@@ -1,0 +1,16 @@
+// SPDX-FileCopyrightText: 2026 The Pion community <https://pion.ly>
+// SPDX-License-Identifier: MIT
+
+//go:build !verif
+
+package dtlshandshake
+
+import (
+	dtlsflight "github.com/pion/dtls/v3/internal/flight"
+	dtlsstate "github.com/pion/dtls/v3/internal/state"
+)
+
+// verifEditFlight is the identity unless built with the verif tag.
+func verifEditFlight(_ dtlsstate.Active, _ string, pkts []*dtlsflight.Packet) []*dtlsflight.Packet {
+	return pkts
+}
